@@ -76,6 +76,7 @@ def main(argv):
         prop, tier, len(obs), sum(o.backend == "kani" for o in obs), sum(o.backend == "verus" for o in obs)))
     results = {}
     replay_info = {}
+    vacuity = {}
     with Scratch(prop) as sc:
         kobs = [o for o in obs if o.backend == "kani"]
         vobs = [o for o in obs if o.backend == "verus"]
@@ -91,6 +92,18 @@ def main(argv):
         if vobs:
             from . import verus_backend as V
             results.update(V.run(sc, vobs, tier=tier, jobs=args.jobs, log=log))
+            if tier == "thorough":
+                # vacuity guard: every contracted function must be REJECTED when `ensures false` is added
+                for unit in sorted(set(o.unit for o in vobs)):
+                    vac, names = V.vacuity_probe(sc, unit, log=log)
+                    vacuity[unit] = {"probed": names, "vacuous": vac}
+                    log("  vacuity[%s]: %d contracted functions probed with `ensures false`, %s" % (
+                        unit, len(names), "all rejected" if vac == [] else "NOT REJECTED: %s" % vac))
+                    if vac is None or vac:
+                        for o in vobs:
+                            if o.unit == unit and (vac is None or o.vfn in vac) and results[o.id].status == "proved":
+                                results[o.id].status = "undecided"
+                                results[o.id].reason = "undecided: vacuity probe: `ensures false` was accepted (contradictory precondition?)"
         # counterexamples for refuted obligations (while the scratch still exists)
         for o in obs:
             r = results[o.id]
@@ -139,7 +152,7 @@ def main(argv):
         log(" %s %-12s %-6s %-9s %6.1fs  %s%s" % (tag, o.id, o.backend, o.kind, r.time_s, " ".join(o.functions)[:70], extra))
 
     if not args.only and not os.environ.get("VERIF_NO_EVIDENCE"):
-        write_evidence(prop, tier, seed, obs, results, wall, violations, known_hits, undecided)
+        write_evidence(prop, tier, seed, obs, results, wall, violations, known_hits, undecided, vacuity)
 
     for o, r, k in known_hits:
         log("KNOWN-FINDING: property=%s %s" % (prop, k["what"]))
@@ -167,7 +180,7 @@ def _match_known(known, o, r):
     return None
 
 
-def write_evidence(prop, tier, seed, obs, results, wall, violations, known_hits, undecided):
+def write_evidence(prop, tier, seed, obs, results, wall, violations, known_hits, undecided, vacuity=None):
     os.makedirs(EVID, exist_ok=True)
     proof_obs = [o for o in obs if o.kind == "complete"]
     bounded_obs = [o for o in obs if o.kind != "complete"]
@@ -223,6 +236,8 @@ def write_evidence(prop, tier, seed, obs, results, wall, violations, known_hits,
             "exhaustive": False,
             "undecided": [o.id for o, _ in undecided],
             "known_findings_hit": [k["what"] for _, _, k in known_hits],
+            "vacuity_probes": vacuity or {},
+            "extraction_rewrites": sorted(set(r for o in obs for r in getattr(results[o.id], "rewrites", []))),
         },
         "assumptions": sorted(assumes) + [
             "Kani/CBMC and Verus/Z3 are sound; rustc MIR semantics as modelled by Kani",
